@@ -14,6 +14,9 @@
 #include "vstate.h"
 #include "vctl.h"
 
+#include <arpa/inet.h>
+#include <netinet/in.h>
+#include <sys/socket.h>
 #include <poll.h>
 #include <signal.h>
 #include <sys/stat.h>
@@ -108,9 +111,11 @@ static void progress_case(long idx, vrng *r, enum vtp tp)
     if (vtp_is_bytestream(tp)) xcm_attr_map_add_str(m, "xcm.service", "bytestream");
     { SC(&sv, "xcm_server_a"); sv.s = xcm_server_a(addr, m); vs_leave(); take_alarms("xcm_server_a"); }
     struct vdns_plan dp; memset(&dp, 0, sizeof dp); snprintf(dp.name, sizeof dp.name, "slow.verif.test"); dp.deliver = VDNS_AFTER_MS; dp.after = 30 + (int)vrnd_n(r, 50);
+    bool happy = vrnd_p(r, 50);
+    if (happy && vrnd_p(r, 60)) vdns_addr6(&dp.addrs[dp.n++], "::1");       /* both families: the IPv4 attempts start 200 ms after the IPv6 one (nobody listens there) */
     vdns_addr4(&dp.addrs[dp.n++], "127.0.0.61"); vdns_addr4(&dp.addrs[dp.n++], "127.0.0.62");
     vdns_enable(true); vdns_set(&dp);
-    xcm_attr_map_add_str(m, "dns.algorithm", vrnd_p(r, 50) ? "sequential" : "happy_eyeballs");
+    xcm_attr_map_add_str(m, "dns.algorithm", happy ? "happy_eyeballs" : "sequential");
     xcm_attr_map_add_double(m, "tcp.connect_timeout", 0.15);
     if (vrnd_p(r, 30) && tp != TP_UTLS_TLS && tp != TP_UTLS_UX) {
         /* the local address is given by name as well: it has to be resolved too, and that takes the resolver a moment */
@@ -214,6 +219,30 @@ static void one_case(long idx, void *arg)
         if (vstate_make(&v2, c.tp, ST_ESTABLISHED, ss ^ 99, NULL, why2, sizeof why2) == 0) vobs("creations_after_failed_tls_creation", 1);
         take_alarms("xcm_connect_a");
         vstate_free(&v2);
+    }
+    if (vtp_is_tls(c.tp) && c.tp != TP_UTLS_FALLBACK) {
+        /* a non-blocking TLS server accepts a connection that is to be a blocking one, from a peer that connects and then says nothing:
+         * the accept itself still returns at once */
+        struct xcm_attr_map *sm2 = xcm_attr_map_create(); xcm_attr_map_add_bool(sm2, "xcm.blocking", false); if (vtp_is_bytestream(c.tp)) xcm_attr_map_add_str(sm2, "xcm.service", "bytestream");
+        struct vep sv2; veng_ep_init(&sv2, 7, c.tp, 9);
+        const char *pr2 = c.tp == TP_BTLS ? "btls" : c.tp == TP_TLS ? "tls" : "utls";
+        char sa2[64]; snprintf(sa2, sizeof sa2, "%s:127.0.0.1:0", pr2);
+        { SC(&sv2, "xcm_server_a"); sv2.s = xcm_server_a(sa2, sm2); vs_leave(); take_alarms("xcm_server_a"); }
+        xcm_attr_map_destroy(sm2);
+        if (sv2.s) {
+            const char *la2 = xcm_local_addr(sv2.s); int port2 = la2 ? atoi(strrchr(la2, ':') + 1) : 0;
+            int rfd = socket(AF_INET, SOCK_STREAM, 0); struct sockaddr_in a4 = { .sin_family = AF_INET, .sin_port = htons((unsigned short)port2) }; inet_pton(AF_INET, "127.0.0.1", &a4.sin_addr);
+            if (rfd >= 0 && connect(rfd, (struct sockaddr *)&a4, sizeof a4) == 0) {
+                vs_mark_harness_fd(rfd);
+                struct xcm_attr_map *am2 = xcm_attr_map_create(); xcm_attr_map_add_bool(am2, "xcm.blocking", true);
+                struct xcm_socket *ax = NULL;
+                for (int i = 0; i < 200 && !ax; i++) { SC(&sv2, "xcm_accept_a"); ax = xcm_accept_a(sv2.s, am2); int se = errno; vs_leave(); take_alarms("xcm_accept_a"); if (!ax && se != EAGAIN) break; if (!ax) { struct pollfd none; vs_real_poll(&none, 0, 1); } }
+                xcm_attr_map_destroy(am2);
+                if (ax) { vobs("blocking_connections_accepted_from_a_silent_peer", 1); vs_real_close(rfd); rfd = -1; struct vs_scope bs = { .active = true, .nonblocking = false, .api = "xcm_close", .ep = 8, .plan = NULL }; vs_enter(&bs); xcm_close(ax); vs_leave(); }
+            }
+            if (rfd >= 0) vs_real_close(rfd);
+            vx_close(&sv2);
+        }
     }
     for (int i = 0; i < ncfd; i++) close(cfds[i]);
     if (idx < 2) vsample(ctx);
